@@ -1,6 +1,7 @@
 --------------------------- MODULE GossipProofMC ---------------------------
 (* Exhaustive configuration of GossipProof: EVERY sequence of schedule      *)
-(* entries (local channel announcements, halves of every validity class     *)
+(* entries (local channel announcements, announcements of own channels from   *)
+(* the network (valid / one signature bad), halves of every validity class     *)
 (* from either side / a stranger / for an unknown channel, restarts),        *)
 (* duplicates and any order, of any length: the state space is finite once   *)
 (* the step counter and the observation `last` are left out of the view      *)
